@@ -80,7 +80,7 @@ PROPS = {
         not_decided=[
             'the operation itself (vectortiles_update_properties::run, filter_map_properties): iterator adapters and closures over iter_mut',
             'only-the-named-layer-changes, CSV join semantics, value typing (GeoValue)',
-            'encode_tag_ids / decode_tag_ids (iterate a BTreeMap-backed type), VectorTileLayer::to_blob framing, GeoValue typing',
+            'encode_tag_ids (iterates a BTreeMap: no ghost iterator for the stand-in), VectorTileLayer::to_blob framing, GeoValue typing',
             'feature decoder correctness beyond totality (to_blob is proved against the MVT wire layout; read is proved total, the composition read(to_blob(f)) = f is not)',
             'round trip lemma dec(enc(v)) = v for varints is stated per direction (encoder = LEB128 spec, decoder = 7-bit group rule), not composed',
         ],
